@@ -362,7 +362,7 @@ def stepCore (s : Sess) (c : Cmd) : Sess × String × String :=
 /-! ### the pointer-level model alongside -/
 
 def plUnsupported : List String :=
-  ["sort", "sort_in_place", "mk_sub", "mk_copy_shallow", "mk_copy_deep", "mk_filter"]
+  []
 
 /-- rebuild the pointer-level state from the sequence-level one (fresh nodes, linked canonically): used after the
 operations that have no pointer-level model; the shim renumbers its nodes at the same moments -/
@@ -474,6 +474,15 @@ def plStep (old s : Sess) (c : Cmd) : Sess :=
       chk (setP s k r.2.2.1 (some r.2.2.2.1)) r.2.2.2.2
     | "reverse" => let r := PList.reverse s.pst h; setP s k r.1 (some r.2)
     | "filter_mut" => let r := PList.filterMut LSeq.predEven s.pst h m; chk (setP s k r.2.1 (some r.2.2.1)) r.2.2.2
+    | "sort_in_place" => let r := PList.sortInPlace (pickCmp c) s.pst h; setP s k r.1 (some r.2)
+    | "sort" => let r := PList.sort (LSeq.stableSort LSeq.cmpNum) s.pst h m; chk (setP s k r.2.1 (some r.2.2.1)) r.2.2.2
+    | "mk_sub" | "mk_copy_shallow" | "mk_copy_deep" | "mk_filter" =>
+      if (getM old to).isSome || to == k then s else
+      let r := if c.op == "mk_sub" then PList.sublist s.pst h (c.nat "b" 0) (c.nat "e" 0) m
+               else if c.op == "mk_copy_shallow" then PList.copy id s.pst h m
+               else if c.op == "mk_copy_deep" then PList.copy LSeq.cpPlus s.pst h m
+               else PList.filter LSeq.predEven s.pst h m
+      chk (setP s to r.2.1 r.2.2.1) r.2.2.2
     | _ => s
   | _, _ => s
 
